@@ -65,9 +65,12 @@ def cases(draw, tier):
     ops = [(a, a if (nl == 1 or same == 0) else (a + 1 + off) % nl, ub, ch) for a, off, ub, ch, same in ops]
     if nl * nl <= 12 and draw(st.booleans()):
         ops = [(a, b, draw(st.booleans()), False) for a in range(nl) for b in range(nl)]
-    return {"shape": shape, "nprocs": nprocs, "layouts": [[n, p] for n, p in zip(nm, perms)],
-            "mode": mode, "dtype": dtype, "ops": [list(o) for o in ops],
-            "schedule": draw(gen.schedules(16))}
+    c = {"shape": shape, "nprocs": nprocs, "layouts": [[n, p] for n, p in zip(nm, perms)],
+         "mode": mode, "dtype": dtype, "ops": [list(o) for o in ops],
+         "schedule": draw(gen.schedules(16))}
+    if len(nprocs) >= 2 and nprocs != nprocs[::-1] and draw(st.integers(0, 3)) == 0:
+        c["decoy"] = nprocs[::-1]
+    return c
 
 
 def _rank_fn(ctx, case):
@@ -76,6 +79,13 @@ def _rank_fn(ctx, case):
     dtype = ga.DTYPES[case["dtype"]]
     layouts = {n: list(p) for n, p in case["layouts"]}
     eta = [np.linspace(0.0, 1.0, n) for n in shape]
+    if case.get("decoy"):
+        # another handler built earlier on the same communicator with another process grid (as a program that sets up
+        # several grids does): nothing of it may reach the handler under test
+        try:
+            getLayoutHandler(ctx.comm, layouts, list(case["decoy"]), eta)
+        except RuntimeError:
+            pass
     try:
         h = getLayoutHandler(ctx.comm, layouts, list(case["nprocs"]), eta)
     except RuntimeError as e:
